@@ -68,6 +68,14 @@ type kvElection struct {
 	disconnectHandler *disconnectHandler
 
 	healthFailureCount atomic.Int32
+
+	// acquireSem admits one acquisition attempt of this instance at a time.
+	// Watch events, the periodic check and the end-of-initial-data marker can
+	// each start a round; letting their Create/takeover calls overlap allows
+	// two of them to succeed one after the other (when the first record is
+	// deleted in between) and the instance to hold a record whose token is
+	// not the token of its running term.
+	acquireSem chan struct{}
 }
 
 // leadershipPayload represents the value stored in the leadership key
@@ -97,6 +105,8 @@ func newKVElection(nc JetStreamProvider, cfg ElectionConfig) (*kvElection, error
 		nc:  nc,
 		kv:  kv,
 		key: cfg.Group,
+
+		acquireSem: make(chan struct{}, 1),
 	}
 
 	e.isLeader.Store(false)
@@ -321,8 +331,22 @@ func (e *kvElection) stopped() bool {
 }
 
 func (e *kvElection) attemptAcquire() error {
+	select {
+	case e.acquireSem <- struct{}{}:
+		defer func() { <-e.acquireSem }()
+	default:
+		// Another attempt of this instance is in flight. Fail this one at
+		// once (the round's backoff brings it back) rather than queueing
+		// behind a store call that may take seconds.
+		return ErrElectionFailed
+	}
+
 	if e.stopped() {
 		return ErrAlreadyStopped
+	}
+	if e.IsLeader() {
+		// another attempt of this instance won while this one was waiting
+		return nil
 	}
 
 	token := uuid.New().String()
